@@ -272,11 +272,32 @@ def _seldef_ref(c, v):
     return [default]
 
 
-reg(Entry('SelectDefault', ['n', 'w'], lambda W: ({'n': n, 'w': w} for n in range(1, 4) for w in range(1, (W if n < 3 else 1) + 1)),
-          _sel_st,
-          lambda c: [1] * c['n'] + [c['w']] * c['n'] + [c['w']], lambda c: [c['w']],
+def _seldef_small(W):
+    for n in range(1, 4):
+        for w in range(1, (W if n < 3 else 1) + 1):
+            yield {'n': n, 'w': w}
+    # inputs and default narrower than the result (hw_select_default sizes r as the widest input)
+    for ws in ([1, 3], [3, 1], [2, 3, 1], [1, 1, 3]):
+        for wd in (1, 3):
+            yield {'n': len(ws), 'w': 3, 'ws': ws, 'wd': wd}
+
+
+@st.composite
+def _seldef_st(draw):
+    c = draw(_sel_st)
+    if draw(st.booleans()):
+        c = dict(c, ws=[draw(st.integers(1, c['w'])) for _ in range(c['n'])], wd=draw(st.integers(1, c['w'])))
+    return c
+
+
+def _seldef_ws(c):
+    return list(c.get('ws') or [c['w']] * c['n']), c.get('wd') or c['w']
+
+
+reg(Entry('SelectDefault', ['n', 'w'], _seldef_small, _seldef_st(),
+          lambda c: [1] * c['n'] + _seldef_ws(c)[0] + [_seldef_ws(c)[1]], lambda c: [c['w']],
           lambda sys, i, o, c: py4hw.SelectDefault(sys, 'dut', list(i[:c['n']]), list(i[c['n']:2 * c['n']]), i[2 * c['n']], o[0]),
-          _seldef_ref, cls=lambda c: 'n={}'.format(min(c['n'], 3))))
+          _seldef_ref, cls=lambda c: 'n={}{}'.format(min(c['n'], 3), ',mixed_widths' if c.get('ws') else '')))
 
 
 def _prio_ref(c, v):
